@@ -193,7 +193,7 @@ def main():
                      'kind_free_text': 'Coq 8.16.1 development (model, specs, theorems) + Python correspondence harness evaluating the model with vm_compute'}],
         'checks': checks,
         'not_applicable': na,
-        'notes': 'Technique: machine-checked proof in Coq over an executable Gallina model, tied to /repo on every run by translators (data tables and, since round 3, the Python source of 37 index/position kernels, each with a bridge obligation to the hand model) and by differential correspondence. See DESIGN.md.',
+        'notes': 'Technique: machine-checked proof in Coq over an executable Gallina model, tied to /repo on every run by translators (data tables and, since round 3, the Python source of 40 index/position kernels, each with a bridge obligation to the hand model) and by differential correspondence. See DESIGN.md.',
     }
     with open(os.path.join(HERE, 'MANIFEST.json'), 'w') as f:
         json.dump(m, f, indent=1)
